@@ -142,8 +142,7 @@ def r06_1(ctx):
     return r
 
 
-# R06_2_PROBE_PENDING: set to True together with the /repo repair findings/pending/fix_c06_probe_stun_transaction_id.diff
-R06_2_PROBE_STRICT = False
+R06_2_PROBE_STRICT = True
 
 
 def r06_2(ctx):
